@@ -106,6 +106,12 @@ End WithV.
 Lemma classifications_names : map name_of_cls classifications_c = classifications.
 Proof. vm_compute. reflexivity. Qed.
 
+Lemma cls_of_name_of_cls c : cls_of_name (name_of_cls c) = Some c.
+Proof. destruct c; vm_compute; reflexivity. Qed.
+
+Lemma class_names : map name_of_cls classifications_c = classifications /\ (forall c, cls_of_name (name_of_cls c) = Some c).
+Proof. exact (conj classifications_names cls_of_name_of_cls). Qed.
+
 Lemma cname_eq_cls c d : py_pair_eqb str_eqb str_eqb (name_of_cls c) (name_of_cls d) = cls_eqb c d.
 Proof. destruct c, d; vm_compute; reflexivity. Qed.
 
@@ -139,6 +145,15 @@ Proof.
   2: reflexivity.
   cbn [length Nat.eqb py_index nth_error bind nth Nat.leb Nat.ltb andb].
   destruct (d =? 1); vm_compute; reflexivity.
+Qed.
+
+(** [classification in self.get_valid_classes()] is the model's [class_valid] *)
+Theorem class_valid_src_eq (h : hdr) (c : cls) :
+  rmap (py_in (py_pair_eqb str_eqb str_eqb) (name_of_cls c)) (get_valid_classes_src classifications (shape h)) =
+  if ndim_ok h then Ok (class_valid h c) else Err EValue.
+Proof.
+  rewrite get_valid_classes_src_eq. destruct (ndim_ok h); [|reflexivity].
+  cbn [rmap]. rewrite py_in_names. reflexivity.
 Qed.
 
 Lemma valid_classes_nil (h : hdr) : ndim_ok h = false -> valid_classes h = [].
